@@ -54,7 +54,12 @@ class DiagX(SDEFunction):
         super().__init__(m=dimension, d=dimension)
 
     def __call__(self, t: float, x: np.array) -> np.array:
-        return np.diag(x)
+        x = np.asarray(x)
+        if x.ndim == 3:
+            # stacked states of a coupled process: one diagonal matrix for the fine and one for the coarse state
+            return np.stack([np.diag(xi.ravel()) for xi in x])
+        # x is a column vector: np.diag of a 2d-array would extract its diagonal instead of building the matrix
+        return np.diag(x.ravel())
 
 
 class LiborSDEFunction(SDEFunction):
